@@ -31,7 +31,8 @@ def generate(r, tier, build):
 
 
 def corpus(build):
-    return []
+    from .gen_int import literal_sweep
+    return literal_sweep("u64,u32", "u32", empty_too=True) + []
 
 
 def classify(req, model):
@@ -48,7 +49,10 @@ def oracle(req, impl, build):
         return None
     st = m.group(1)
     kind = "chacha" if req.startswith("chacha") else re.search(r"gen=(\w+)", req).group(1)
-    seed = re.search(r"seed=(\d+)", req).group(1)
+    ms = re.search(r"seed=(\d+)", req)
+    if not ms:
+        return None
+    seed = ms.group(1)
     if kind == "xoshiro" and all(x == "0" for x in st.split(",")):
         return "seed %s gives the all-zero Xoshiro256 state" % seed
     # distinct seeds -> distinct initial states.  The state printed is after the ops; compare the model-independent
